@@ -252,6 +252,16 @@ def strengths(game, n, holes, board):
     return rows
 
 
+_EXECUTOR = []
+
+
+def _executor():
+    if not _EXECUTOR:
+        from concurrent.futures import ThreadPoolExecutor
+        _EXECUTOR.append(ThreadPoolExecutor(max_workers=2))
+    return _EXECUTOR[0]
+
+
 def check_equities(seed, count):
     from pokerkit import Deck
     from pokerkit.analysis import calculate_equities
@@ -273,6 +283,13 @@ def check_equities(seed, count):
                 res.append(calculate_equities([[hc] for hc in holes], board, h, b, getattr(Deck, deck), types, sample_count=k))
             except Exception as ex:  # noqa: BLE001
                 res.append(type(ex).__name__)
+        # the same deal through an executor (the documented way to parallelise), sample counts that are not round
+        kx = rng.choice([1, 7, 99, 101, 150])
+        try:
+            res.append(calculate_equities([[hc] for hc in holes], board, h, b, getattr(Deck, deck), types,
+                                          sample_count=kx, executor=_executor()))
+        except Exception as ex:  # noqa: BLE001
+            res.append(type(ex).__name__)
         e = res[0]
         if isinstance(e, str):
             viols.append(v('equity', f'equity_raises:{name}', f'{name} {inp[2]} board {inp[3]}: {e}', inp))
@@ -287,7 +304,7 @@ def check_equities(seed, count):
             viols.append(v('equity', f'sum:{name}', f'{name} {inp[2]} board {inp[3]}: equities {e} sum to {sum(e)}', inp))
         for other in res[1:]:
             if isinstance(other, str) or any(abs(x - y) > TOL for x, y in zip(e, other)):
-                viols.append(v('equity', f'sampling:{name}', f'{name}: equities depend on sample_count: {res}', inp))
+                viols.append(v('equity', f'sampling:{name}', f'{name}: equities depend on sample_count (1, 3, 7 and {kx} through an executor): {res}', inp))
         try:
             eng = engine_shares(game, n, holes, board)
         except Exception as ex:  # noqa: BLE001
@@ -369,6 +386,8 @@ def check_icm(seed, count):
     for _ in range(count):
         n = rng.randint(1, 6)
         k = rng.randint(0, n)
+        if rng.random() < 0.15:
+            k = n + rng.randint(1, 2)          # more paid places than players left
         kind = rng.choice(['int', 'int', 'frac', 'equal', 'skewed'])
         if kind == 'frac':
             chips = [Fraction(rng.randint(1, 400), rng.randint(1, 7)) for _ in range(n)]
@@ -383,8 +402,9 @@ def check_icm(seed, count):
             rng.shuffle(pays)
         e = list(calculate_icm([float(x) for x in pays], [float(x) for x in chips]))
         inp = ['icm', [str(x) for x in pays], [str(x) for x in chips]]
-        pool = float(sum(pays))
-        scale = max(1.0, pool)
+        # the prize pool: the places that can be reached (with the payouts in descending order the first n)
+        pool = float(sum(pays[:n]))
+        scale = max(1.0, float(sum(pays)))
         if any(x < -TOL * scale for x in e):
             viols.append(v('icm', 'icm_negative', f'calculate_icm({pays}, {chips}) = {e}', inp))
         if abs(sum(e) - pool) > TOL * scale * 10:
